@@ -112,12 +112,22 @@ PROPS = {
             'NOT DECIDED: arbitrary nesting of lists/maps/arrays/described values (the element loop of the serde visitor chain), the derive-macro output for the typed protocol items (performatives, SASL bodies, delivery states, messages) -- serde visitor code is outside the Verus subset and too large for CBMC beyond small bounds',
             'compound header writers: the call-site fact count <= byte length (every element occupies at least one byte in this implementation) is assumed; the serde SerializeSeq/Map impls that call them are not under contract']),
     'C20': dict(
+        probes=[dict(name='size_of_described_composites', kind='agreement', target='serde_amqp::{serialized_size,to_vec} on fe2o3_amqp_types composites', args=['C20.size-composites'],
+                     claim='serialized_size(v) == to_vec(v).len() for derive(SerializeComposite) values: empty described lists (Accepted, Released, End, default Header / Properties), delivery states inside a Disposition, and described lists whose body crosses the list8 / list32 boundary (body sizes 220..=270 through Properties.user_id and Rejected.error.description), Data / AmqpValue around the vbin8 / str8 boundary',
+                     bound='133 values, fixed sample data'),
+                dict(name='tree_vs_bytes_plain', kind='agreement', target='serde_amqp::{to_value,from_value}~{to_vec,from_slice}', args=['C20.value-tree-plain'],
+                     claim='from_value::<T>(to_value(&v)) and from_slice::<T>(&to_vec(&v)) both give v back, for undescribed typed values: every primitive type, strings / symbols / binaries, Option, unit, Vec (nested, of options), tuples, BTreeMap / OrderedMap, Array of primitives, of lists, of tuples and of arrays',
+                     bound='49 typed values, fixed sample data'),
+                dict(name='tree_vs_bytes_described', kind='agreement', target='serde_amqp::{to_value,from_value}~{to_vec,from_slice}', args=['C20.value-tree-described'],
+                     claim='the same agreement for described types (derive(DeserializeComposite) performatives, delivery states, message sections; Described<T>)', bound='8 typed values'),
+                dict(name='tree_vs_bytes_untyped', kind='agreement', target='serde_amqp::{to_value,from_value}~{to_vec,from_slice}', args=['C20.value-tree-untyped'],
+                     claim='the same agreement with the untyped tree itself as target type (from_value::<Value>, OrderedMap<Symbol, Value>)', bound='8 values')],
         units=['FRAMEDEC', 'READERS', 'SERSTR', 'SERFIX', 'SERHDR', 'VALUESER'], lemmas={'VALUESER': ['lemma_tree_equals_direct']}, kani=K_RT + K_READER, level='proof', title='Codec entry points agree (primitives; frame payload)',
         assumptions=[
             'PROVED for every value: the fixed-width primitives listed in the obligations (Kani harnesses, loop-free / fully unwound over the full domain) and the compound header writers (Verus)',
             'BOUNDED ONLY (listed under bounded_obligations, never counted as proved): decoders on short byte strings, compound headers with hostile size/count bytes',
             'NOT DECIDED: arbitrary nesting of lists/maps/arrays/described values (the element loop of the serde visitor chain), the derive-macro output for the typed protocol items (performatives, SASL bodies, delivery states, messages) -- serde visitor code is outside the Verus subset and too large for CBMC beyond small bounds',
-            'compound header writers: the call-site fact count <= byte length (every element occupies at least one byte in this implementation) is assumed; the serde SerializeSeq/Map impls that call them are not under contract'] + ['to_value/from_value vs bytes is not covered yet',
+            'compound header writers: the call-site fact count <= byte length (every element occupies at least one byte in this implementation) is assumed; the serde SerializeSeq/Map impls that call them are not under contract'] + ['to_value/from_value vs bytes: decided only on the samples of the bounded probes tree_vs_bytes_* (value/ser.rs and value/de.rs are serde visitor code outside the Verus subset)',
             'PROVED for every input (unit READERS): SliceReader and IoReader satisfy ONE Read contract (peek/peek_bytes consume nothing, next/read_exact/read_bytes consume exactly what they return, in order), so decoding from a slice and from a stream see the same bytes and leave the same bytes behind; the LazyValue/byte_buf scanner takes exactly one encoded value (length by the AMQP constructor rule) -- the decoders built on top (de.rs) are not under contract']),
     'C04': dict(
         units=['READERS', 'SEQACCESS'], kani=K_TOTAL3 + K_HDR_QUICK + K_HDR_THOROUGH, level='proof', title='Decoding untrusted bytes (reader layer proved; decoders bounded)',
